@@ -472,6 +472,19 @@ Violations(line, pre, post, exp) ==
   \cup C06v(line, pre) \cup C07v(line, pre, post, exp) \cup C08v(line, pre) \cup C09v(line, pre) \cup C10v(line, pre, exp)
   \cup C11v(line, pre) \cup C12v(line, pre) \cup C12x(line, pre, exp) \cup C13v(line, pre) \cup C15v(line, pre, post) \cup C18v(line, pre, post) \cup C19v(line, pre, exp) \cup C20v(line, pre, exp)
 
+\* only the predicates of the given property ids (the model asserts one property at a time: evaluating all of them on every
+\* outcome was the dominant cost of model checking)
+ViolationsFor(ids, line, pre, post, exp) ==
+  (IF "C01" \in ids THEN C01v(line, pre) ELSE {}) \cup (IF "C02" \in ids THEN C02v(line, pre) ELSE {})
+  \cup (IF "C03" \in ids THEN C03v(line, pre, post) ELSE {}) \cup (IF "C04" \in ids THEN C04v(line, pre, post, exp) ELSE {})
+  \cup (IF "C05" \in ids THEN C05v(line, pre) ELSE {}) \cup (IF "C06" \in ids THEN C06v(line, pre) ELSE {})
+  \cup (IF "C07" \in ids THEN C07v(line, pre, post, exp) ELSE {}) \cup (IF "C08" \in ids THEN C08v(line, pre) ELSE {})
+  \cup (IF "C09" \in ids THEN C09v(line, pre) ELSE {}) \cup (IF "C10" \in ids THEN C10v(line, pre, exp) ELSE {})
+  \cup (IF "C11" \in ids THEN C11v(line, pre) ELSE {}) \cup (IF "C12" \in ids THEN C12v(line, pre) \cup C12x(line, pre, exp) ELSE {})
+  \cup (IF "C13" \in ids THEN C13v(line, pre) ELSE {}) \cup (IF "C15" \in ids THEN C15v(line, pre, post) ELSE {})
+  \cup (IF "C18" \in ids THEN C18v(line, pre, post) ELSE {}) \cup (IF "C19" \in ids THEN C19v(line, pre, exp) ELSE {})
+  \cup (IF "C20" \in ids THEN C20v(line, pre, exp) ELSE {})
+
 Facts(line, pre, post, exp) ==
   C01f(line, pre) \cup C02f(line, pre) \cup C03f(line, pre) \cup C04f(line, pre) \cup C05f(line, pre) \cup C06f(line, pre)
   \cup C07f(line, pre, exp) \cup C08f(line, pre) \cup C09f(line, pre) \cup C10f(line, pre) \cup C11f(line, pre, post, exp)
